@@ -290,6 +290,17 @@ class PandasModelBase(
                 res[bad_posns] = None
         return res
 
+    def _concat_expr(self, a, b):
+        """
+        concat(a, b) joins the texts of a and b, and is missing where a or b is missing.
+        """
+        res = numpy.char.add(numpy.asarray(a, dtype=str), numpy.asarray(b, dtype=str))
+        bad_posns = numpy.logical_or(self.pd.isnull(a), self.pd.isnull(b))
+        if (numpy.ndim(res) > 0) and numpy.any(bad_posns):
+            res = res.astype(object)
+            res[numpy.broadcast_to(bad_posns, res.shape)] = None
+        return res
+
     def _populate_impl_map(self) -> Dict[str, Callable]:
         """
         Map symbols to implementations.
@@ -326,9 +337,7 @@ class PandasModelBase(
             "is_null": self.isnull,
             "is_bad": self.bad_column_positions,
             "is_in": _type_safe_is_in,
-            "concat": lambda a, b: numpy.char.add(
-                numpy.asarray(a, dtype=str), numpy.asarray(b, dtype=str)
-            ),
+            "concat": lambda a, b: self._concat_expr(a, b),
             "coalesce": lambda a, b: self._coalesce(a, b),  # assuming Pandas series
             "connected_components": lambda a, b: data_algebra.connected_components.connected_components(
                 a, b
